@@ -5,5 +5,5 @@ Extraction Language OCaml.
 Extraction "c18_model.ml"
   Z.add Z.mul Z.opp Z.abs Z.div_eucl Z.sub Z.eqb Z.leb Z.ltb Z.of_nat Z.to_nat
   Base.FILL
-  C18.c18_run C18.c18_node_faces C18.c18_order_nodes C18.c18_dual_data C18.c18_make_key
+  C18.c18_run C18.c18_node_faces C18.c18_order_nodes C18.c18_order_nodes_literal C18.c18_dual_data C18.c18_make_key
   C18.c18_angle_lt C18.c18_angle_gt0 C18.c18_angle_lt2pi.
